@@ -344,6 +344,7 @@ def rule_r3(ctx: Ctx) -> None:
     files = [
         "/w/ns/A.1.0.dsdl", "/w/ns/B.1.0.uavcan", "/w/ns/sub/deep/er/C.2.3.dsdl", "/w/ns/sub/D.1.0.dsdl", "/w/ns/sub/deep/L.1.0.uavcan", "/w/ns/readme.txt", "/w/ns/sub/E.1.0.dsdl.bak",
         "/w/other/X.1.0.dsdl", "/w/nsx/Y.1.0.dsdl", "/w/ns2/Z.1.0.dsdl",
+        "/elsewhere/ns/Q.1.0.dsdl", "/elsewhere/ns/sub/R.1.0.dsdl",  # a lookup directory named like the root (name collisions are allowed by default)
     ]
     saved = list(APath.FS)
     APath.FS = list(files)
@@ -352,7 +353,7 @@ def rule_r3(ctx: Ctx) -> None:
         hook = R._hook(ctx, mod, log, record=["_complete_read_function", "_construct_lookup_directories_path_list", "normalize_paths_argument_to_list"], results={
             "dsdl_file_sort": lambda xs: list(xs), "file_sort": lambda xs: list(xs),  # the order is C10.R2's question
             "_complete_read_function": lambda *a, **k: Sym(direct=["DIRECT-TYPES"], transitive=["TRANSITIVE-TYPES"]),
-            "_construct_lookup_directories_path_list": lambda *a, **k: ["LOOKUP-DIRS"],
+            "_construct_lookup_directories_path_list": lambda roots, lookups, *a, **k: list(roots) + [x for x in lookups if x not in list(roots)],
             "normalize_paths_argument_to_list": lambda x=None: [] if x is None else list(x) if isinstance(x, (list, tuple)) else [x],
         })
         try:
@@ -367,7 +368,7 @@ def rule_r3(ctx: Ctx) -> None:
         rn = ctx.func("_namespace.read_namespace")
         del log[:]
         try:
-            res = call_fn(ctx, rn, [APath("/w/ns"), [APath("/w/other")]], hook=hook, keep=tuple(mod.functions))
+            res = call_fn(ctx, rn, [APath("/w/ns"), [APath("/w/other"), APath("/elsewhere/ns")]], hook=hook, keep=tuple(mod.functions))
         except (Raised, Unfoldable) as ex:
             raise AnalysisError("%s: cannot evaluate over the abstract file system: %s" % (rn.short, ex))
         crf = [(a, k) for name, a, k in log if name == "_complete_read_function"]
